@@ -21,7 +21,8 @@ Definition C14_full (observe : c14case -> list Z) : Prop :=
   forall c, spec_C14 c (observe c) = true.
 
 (* (0) master statement about the functions the harness evaluates: on every input outside the
-   open finding classes (5 blank search text, 6 parser stack, 7 nested non-nullable references),
+   open finding classes (5 blank search text, 6 parser stack, 7 nested non-nullable references,
+   8 reference filter on an aggregate selection),
    what the model says the implementation observes satisfies the property's oracle — no panic
    code, every probe answered, every valid request Ok, parentheses paired and SELECTs linear in
    the request.  All case kinds, sequences of any length. *)
@@ -145,6 +146,32 @@ Theorem C14_statement_size_refuted_witness :
   /\ entity_valid w_dm (w_tree [w_chain (cp "nn") 10]) = true.
 Proof. exact size_refuted_w. Qed.
 Print Assumptions C14_statement_size_refuted_witness.
+
+(* (6) the clause language on one entity (aggregate functions, order_by, first / skip, before /
+   after, filters also on aggregates, json selectors, search, nullable; literals or parameters):
+   the clause skeleton compiled for ANY request is grammatical — in particular a condition after
+   GROUP BY is always introduced by HAVING —, a request the parser's rules accept and whose
+   parameters have their types executes (outside class 5 blank search text and class 8 reference
+   filter on an aggregate selection), and deletion by parameter never reaches its unwraps *)
+Theorem C14_clauses_grammatical_holds_partial : forall q, clauses_ok (emit_clauses q) = true.
+Proof. exact clauses_grammatical. Qed.
+Print Assumptions C14_clauses_grammatical_holds_partial.
+
+Theorem C14_valid_clause_query_executes_outside_known_partial : forall q,
+  aquery_valid q = true -> search_blank q = false -> ref_filter_on_aggregate q = false -> aquery_outcome q = OOk.
+Proof. exact valid_aquery_executes. Qed.
+Print Assumptions C14_valid_clause_query_executes_outside_known_partial.
+
+Theorem C14_delete_total_holds : forall p, delete_outcome p <> OPanic.
+Proof. exact delete_never_panics. Qed.
+Print Assumptions C14_delete_total_holds.
+
+Theorem C14_clause_witnesses :
+  aquery_valid w_paged_agg = true /\ known_C14 (CAgg w_paged_agg) = [] /\ run_C14 (CAgg w_paged_agg) = [0; 1] /\
+  emit_clauses w_paged_agg = [CCond; CGroup; CHaving; CCond; COrder] /\
+  aquery_valid w_ref_filter_agg = true /\ aquery_outcome w_ref_filter_agg = OErr /\ known_C14 (CAgg w_ref_filter_agg) = [8].
+Proof. exact clause_witnesses_w. Qed.
+Print Assumptions C14_clause_witnesses.
 
 Example C14_nonvacuous :
   known_C14 (CQuery w_dm [w_q (Some (cp "grp")) None [RNamed None (cp "name"); RSub None (cp "pets") [RNamed None (cp "name")]]]) = [] /\
